@@ -509,6 +509,18 @@ func h14Gen(seed int64, n int, tier string, out *bufio.Writer) {
 		case "Pattern":
 			c.Str = g.str()
 			c.Str2 = tohex(g.pick([]string{"^a", "a+", "(", "^[a-z]+$", "日", "\\d+", "", "[", "^$", "é"}))
+			if rng.Intn(2) == 0 {
+				// a literal with and without anchors, case folding or quoting, against strings that contain it, start with it,
+				// end with it or are it: a search is not an equality, a prefix test or a containment of the quoted text
+				lit := g.pick([]string{"abc", "a", "日本", "a.c", "x-1", "active"})
+				pat := g.pick([]string{"%s", "^%s", "%s$", "^%s$", "(?i)%s", "^(?i)%s$", "\\Q%s\\E", "^\\Q%s\\E$", "(%s)", "^%s|zz$"})
+				c.Str2 = tohex(fmt.Sprintf(pat, lit))
+				dat := g.pick([]string{"%s", "x%sx", "%sd", "z%s", "not-%s", "%s\n", "\n%s", "", "ABC", "aXc"})
+				if strings.Contains(dat, "%s") {
+					dat = fmt.Sprintf(dat, lit)
+				}
+				c.Str = tohex(dat)
+			}
 		case "UniqueItems":
 			v := g.value(2)
 			if rng.Intn(4) != 0 && v.K != "slice" {
